@@ -831,7 +831,16 @@ fn kind_sarray(rng: &mut Rng, out: &mut Out, id: &str, tier: &str) {
     let r = if tier == "thorough" { 40 } else { 12 };
     out.op(10, &[], r_num(|| x.num_bits()), "num_bits");
     out.op(22, &[], r_num(|| x.num_ones()), "num_ones");
-    for &p in &boundary_args(rng, len, &[], r) {
+    // probes: boundary positions, and positions of set bits (with their neighbours) all over the vector
+    let one_pos: Vec<usize> = bits.iter().enumerate().filter(|(_, &b)| b).map(|(i, _)| i).collect();
+    let mut extra = vec![];
+    for _ in 0..(2 * r) {
+        if !one_pos.is_empty() {
+            let q = one_pos[rng.below(one_pos.len() as u64) as usize];
+            extra.extend_from_slice(&[q, q.wrapping_sub(1), q + 1]);
+        }
+    }
+    for &p in &boundary_args(rng, len, &extra, r) {
         out.op(11, &[p], r_optbool(|| x.access(p)), "access");
         if wr {
             out.op(14, &[p], r_optnum(|| x.rank1(p)), "rank1");
